@@ -20,6 +20,7 @@ from . import cfront, cvc
 from .cvc import Dbl, I, Ptr, Region, State, HeapView, Contract, Val, sort_of
 
 MAXLEN = 48
+UNINTERPRETED_OPS = {"fadd", "fsub", "fmul", "fdiv", "fneg", "f2i", "le2", "le4", "le8"}
 UNKNOWN_TIME_BITS = 0x7FF874736B697421
 
 
@@ -152,7 +153,8 @@ class Concrete:
         self.regions[r.rid] = ent
         leaves = ex.leaf_fields(r.elem) if r.elem.kind == "struct" else [("", r.elem)]
         if r.elem.kind == "ptr":
-            leaves = []      # an array of pointers: allocated zeroed (all NULL), contents opaque
+            # a single pointer cell (e.g. `void **column`) is followed; longer pointer arrays stay NULL / opaque
+            leaves = [("", r.elem)] if n == 1 else []
         for (path, ft) in leaves:
             if ft.kind == "ptr":
                 p = ex.heap0.ptrs.get((r.rid, path))
@@ -239,6 +241,38 @@ def gen_harness(ex, conc):
     src = cfront.cpath(ex.fname)
     L = [HARNESS_PRELUDE % {"src": src}]
     L.append("int main(void) {")
+    L += gen_body(ex, conc)
+    L.append("  printf(\"DONE\\n\");")
+    L.append("  return 0;")
+    L.append("}")
+    return "\n".join(L)
+
+
+def gen_harness_multi(ex, concs):
+    """one program for many inputs: each runs in a forked child (crashes and sanitizer reports stay separate)"""
+    src = cfront.cpath(ex.fname)
+    L = [HARNESS_PRELUDE % {"src": src}, "#include <unistd.h>", "#include <sys/wait.h>"]
+    for k, conc in enumerate(concs):
+        L.append("static void vf_run_%d(void) {" % k)
+        L += gen_body(ex, conc)
+        L.append("  printf(\"DONE\\n\");")
+        L.append("}")
+    L.append("int main(void) {")
+    L.append("  void (*fns[])(void) = {%s};" % ", ".join("vf_run_%d" % k for k in range(len(concs))))
+    L.append("  for (int k = 0; k < %d; k++) {" % len(concs))
+    L.append("    printf(\"BEGIN %d\\n\", k); fflush(stdout);")
+    L.append("    pid_t pid = fork();")
+    L.append("    if (pid == 0) { dup2(1, 2); alarm(20); fns[k](); fflush(stdout); _exit(0); }")
+    L.append("    int st = 0; waitpid(pid, &st, 0);")
+    L.append("    printf(\"\\nEND %d %d %d\\n\", k, WIFEXITED(st) ? WEXITSTATUS(st) : -1, WIFSIGNALED(st) ? WTERMSIG(st) : 0); fflush(stdout);")
+    L.append("  }")
+    L.append("  return 0;")
+    L.append("}")
+    return "\n".join(L)
+
+
+def gen_body(ex, conc):
+    L = []
     decl = []
     for rid in conc.order:
         e = conc.regions[rid]
@@ -263,7 +297,7 @@ def gen_harness(ex, conc):
                     L.append("  %s = (%s) %dLL;" % (acc, ctype_c(ft), v) if ft.signed else
                              "  %s = (%s) %dULL;" % (acc, ctype_c(ft), v))
         for path, tgt in e["ptrs"].items():
-            acc = "r%d[0].%s" % (rid, path)
+            acc = "r%d[0]%s" % (rid, "." + path if path else "")
             if tgt is None:
                 L.append("  %s = NULL;" % acc)
             else:
@@ -311,24 +345,25 @@ def gen_harness(ex, conc):
                 else:
                     L.append("  VF_DUMP_I(\"%s\", r%d, %d, long long);" % (tag, rid, n))
         for path, tgt in e["ptrs"].items():
-            ft = ex.field_type(r.elem, path)
-            L.append("  printf(\"Q r%d:%s %%p %%zu\\n\", (void *) r%d[0].%s, r%d[0].%s ? (__sanitizer_get_ownership((void *) r%d[0].%s) ? __sanitizer_get_allocated_size((void *) r%d[0].%s) : (size_t) -1) : 0);" %
-                     (rid, path, rid, path, rid, path, rid, path, rid, path))
+            ft = ex.field_type(r.elem, path) if path else r.elem
+            a_ = "r%d[0]%s" % (rid, "." + path if path else "")
+            L.append("  printf(\"Q r%d:%s %%p %%zu\\n\", (void *) %s, %s ? (__sanitizer_get_ownership((void *) %s) ? __sanitizer_get_allocated_size((void *) %s) : (size_t) -1) : 0);" %
+                     (rid, path, a_, a_, a_, a_))
             # contents of what the pointer now points to (scalar element types only)
-            if ft.to.kind in ("int", "bool", "double"):
-                ct = ctype_c(ft.to)
-                L.append("  if (r%d[0].%s && __sanitizer_get_ownership((void *) r%d[0].%s)) { size_t n_ = __sanitizer_get_allocated_size((void *) r%d[0].%s) / sizeof(%s); if (n_ > 4096) n_ = 4096;" % (rid, path, rid, path, rid, path, ct))
-                if ft.to.kind == "double":
-                    L.append("    vf_dump_d(\"N:r%d:%s\", (const double *) r%d[0].%s, n_); }" % (rid, path, rid, path))
+            tt = ft.to
+            if tt.kind == "void" and tgt is not None:
+                tt = conc.regions[tgt[0]]["region"].elem
+            if tt is not None and tt.kind in ("int", "bool", "double"):
+                ct = ctype_c(tt)
+                L.append("  if (%s && __sanitizer_get_ownership((void *) %s)) { size_t n_ = __sanitizer_get_allocated_size((void *) %s) / sizeof(%s); if (n_ > 4096) n_ = 4096;" % (a_, a_, a_, ct))
+                if tt.kind == "double":
+                    L.append("    vf_dump_d(\"N:r%d:%s\", (const double *) %s, n_); }" % (rid, path, a_))
                 else:
-                    L.append("    VF_DUMP_I(\"N:r%d:%s\", ((%s *) r%d[0].%s), n_, %s); }" % (rid, path, ct, rid, path, ct))
-    L.append("  printf(\"DONE\\n\");")
-    L.append("  return 0;")
-    L.append("}")
-    return "\n".join(L)
+                    L.append("    VF_DUMP_I(\"N:r%d:%s\", ((%s *) %s), n_, %s); }" % (rid, path, ct, a_, ct))
+    return L
 
 
-def run_harness(code, workdir):
+def run_harness(code, workdir, timeout=60):
     cpath_ = os.path.join(workdir, "h.c")
     open(cpath_, "w").write(code)
     exe = os.path.join(workdir, "h")
@@ -351,7 +386,7 @@ def run_harness(code, workdir):
     env = dict(os.environ)
     env["ASAN_OPTIONS"] = "detect_leaks=0:abort_on_error=0:allocator_may_return_null=1"
     try:
-        r = subprocess.run([exe], capture_output=True, text=True, timeout=60, env=env)
+        r = subprocess.run([exe], capture_output=True, text=True, timeout=timeout, env=env)
     except subprocess.TimeoutExpired:
         return {"timeout": True, "stdout": "", "stderr": "", "code": None}
     return {"timeout": False, "stdout": r.stdout, "stderr": r.stderr, "code": r.returncode}
@@ -399,18 +434,17 @@ def parse_dump(out):
     return d
 
 
-def replay(ex, model, kind_hint=None):
-    """-> dict(failed_on_real_code, reason, input, observed, ...)"""
+def prepare(ex, model):
+    """-> (res, conc, solver): res carries 'unsupported'/'precondition_not_met' when the input cannot be used"""
     res = {"failed_on_real_code": False}
     try:
         conc = Concrete(ex, model)
     except ReplayUnsupported as e:
         res["unsupported"] = str(e)
-        return res
+        return res, None, None
     res["input"] = conc.describe()
     key = (ex.fname, ex.func)
     cfn, _pn = ex.registry.get(key)
-    # 1. the candidate input must satisfy the precondition
     c0 = Contract(ex, key, ex.arg_vals, ex.entry)
     c0.mode = "replay"
     cfn(c0)
@@ -425,8 +459,15 @@ def replay(ex, model, kind_hint=None):
         s.pop()
         if r != z3.unsat:
             res["precondition_not_met"] = nm
-            return res
-    # 2. run the real function
+            return res, None, None
+    return res, conc, s
+
+
+def replay(ex, model, kind_hint=None):
+    """-> dict(failed_on_real_code, reason, input, observed, ...)"""
+    res, conc, s = prepare(ex, model)
+    if conc is None:
+        return res
     wd = tempfile.mkdtemp(prefix="vf_replay_")
     try:
         try:
@@ -437,9 +478,59 @@ def replay(ex, model, kind_hint=None):
             return res
     finally:
         shutil.rmtree(wd, ignore_errors=True)
+    return evaluate(ex, conc, s, res, run)
+
+
+def replay_batch(ex, models):
+    """many candidate inputs through ONE compiled harness; -> list of result dicts (same order)"""
+    prepared = [prepare(ex, m) for m in models]
+    idx = [k for k, (r, c, s) in enumerate(prepared) if c is not None]
+    out = [r for (r, c, s) in prepared]
+    if not idx:
+        return out
+    wd = tempfile.mkdtemp(prefix="vf_replay_")
+    try:
+        try:
+            code = gen_harness_multi(ex, [prepared[k][1] for k in idx])
+            run = run_harness(code, wd, timeout=60 + 25 * len(idx))
+        except ReplayUnsupported as e:
+            for k in idx:
+                out[k]["unsupported"] = str(e)
+            return out
+    finally:
+        shutil.rmtree(wd, ignore_errors=True)
+    blocks = {}
+    cur = None
+    for line in run["stdout"].splitlines():
+        if line.startswith("BEGIN "):
+            cur = int(line.split()[1])
+            blocks[cur] = {"lines": [], "exit": None, "sig": None}
+        elif line.startswith("END ") and cur is not None:
+            t = line.split()
+            blocks[cur]["exit"], blocks[cur]["sig"] = int(t[2]), int(t[3])
+            cur = None
+        elif cur is not None:
+            blocks[cur]["lines"].append(line)
+    for j, k in enumerate(idx):
+        b = blocks.get(j)
+        if b is None:
+            out[k]["unsupported"] = "no output block"
+            continue
+        text = "\n".join(b["lines"])
+        crashed = b["exit"] != 0 or b["sig"] not in (0, None)
+        one = {"timeout": b["sig"] == 14, "stdout": text, "stderr": text if ("Sanitizer" in text or "runtime error" in text or crashed) else "",
+               "code": 0 if not crashed else (b["exit"] if b["exit"] not in (0, None) else -1)}
+        out[k] = evaluate(ex, prepared[k][1], prepared[k][2], out[k], one)
+    return out
+
+
+def evaluate(ex, conc, s, res, run):
+    key = (ex.fname, ex.func)
+    cfn, _pn = ex.registry.get(key)
     if run["timeout"]:
-        res["failed_on_real_code"] = True
-        res["reason"] = "real function did not return within 60 s on this input (non-termination)"
+        # cannot be attributed to the function under contract (a callee with an assumed contract may need more than
+        # this function's precondition states): recorded, not counted as a failure
+        res["inconclusive"] = "real function did not return in time on this input"
         return res
     err = run["stderr"]
     if "AddressSanitizer" in err or "runtime error" in err or (run["code"] not in (0,) and "DONE" not in run["stdout"]):
@@ -475,13 +566,18 @@ def replay(ex, model, kind_hint=None):
             got = d["D"].get(tag) if ft.kind == "double" else d["I"].get(tag)
             if got is None:
                 continue
+            if ft.kind == "int" and not ft.signed:
+                got = [v + (1 << 64) if v < 0 else v for v in got]      # printed through long long
+                d["I"][tag] = got
             post.set_array(r, path, concrete_array(ft, got))
         for path, tgt in e["ptrs"].items():
             q = d["Q"].get("r%d:%s" % (rid, path))
             if q is None:
                 continue
             addr, size = q
-            ft = ex.field_type(r.elem, path)
+            ft = ex.field_type(r.elem, path) if path else r.elem
+            if ft.to.kind == "void" and tgt is not None:
+                ft = cfront.CType("ptr", 64, to=conc.regions[tgt[0]]["region"].elem)
             if addr in ("(nil)", "0x0", "0"):
                 post.pmem[(rid, path)] = cvc.NULL
                 continue
@@ -498,6 +594,8 @@ def replay(ex, model, kind_hint=None):
             if ft.to.kind in ("int", "bool", "double") and size not in (0, (1 << 64) - 1):
                 tagn = "N:r%d:%s" % (rid, path)
                 got = d["D"].get(tagn) if ft.to.kind == "double" else d["I"].get(tagn)
+                if got is not None and ft.to.kind == "int" and not ft.to.signed:
+                    got = [v + (1 << 64) if v < 0 else v for v in got]
                 if got is not None:
                     nr = Region("post:" + r.name + "." + path, ft.to, z3.IntVal(len(got)))
                     post.pmem[(rid, path)] = Ptr(nr)
@@ -522,6 +620,12 @@ def replay(ex, model, kind_hint=None):
             f = fn()
         except Exception as e:
             res.setdefault("clause_errors", []).append("%s: %s" % (nm, e))
+            continue
+        from .solve import _symbols
+        if _symbols(f) & UNINTERPRETED_OPS:
+            # the clause mentions an operation the model leaves uninterpreted (double arithmetic, byte decoding):
+            # it cannot be evaluated concretely
+            res.setdefault("clause_unknown", []).append(nm)
             continue
         s.push()
         s.add(z3.Not(f))
